@@ -240,6 +240,13 @@ func factsAt(in ssa.Instruction) map[string]bool {
 				continue
 			}
 			if s.Dominates(b) && onlyEntersFrom(s, blk, i) {
+				if _, isRet := in.(*ssa.Return); !isRet && !isTerminator(in) && unlockBetween(s, in) {
+					// a mutex is released between the test and this action: whatever the test
+					// learnt about shared state may no longer hold (check-then-act across
+					// critical sections); the edge contributes nothing. Returns and branch
+					// terminators are exempt: reporting what was observed after unlocking is fine.
+					continue
+				}
 				for _, ft := range edgeFacts(iff, i) {
 					out[ft] = true
 				}
@@ -247,6 +254,42 @@ func factsAt(in ssa.Instruction) map[string]bool {
 		}
 	}
 	return out
+}
+
+func isTerminator(in ssa.Instruction) bool {
+	switch in.(type) {
+	case *ssa.If, *ssa.Jump, *ssa.Return, *ssa.Panic:
+		return true
+	}
+	return false
+}
+
+// unlockBetween: some path from the start of block s to instruction in passes
+// a (non-deferred) Unlock/RUnlock call.
+func unlockBetween(s *ssa.BasicBlock, in ssa.Instruction) bool {
+	f := s.Parent()
+	for _, b := range f.Blocks {
+		for _, x := range b.Instrs {
+			ci, ok := x.(*ssa.Call)
+			if !ok {
+				continue
+			}
+			if _, op, _ := lockOp(ci); op != -1 {
+				continue
+			}
+			if x == in {
+				continue
+			}
+			fromS := b == s
+			if !fromS && len(s.Instrs) > 0 {
+				fromS = canReach(s.Instrs[0], x)
+			}
+			if fromS && canReach(x, in) {
+				return true
+			}
+		}
+	}
+	return false
 }
 
 // onlyEntersFrom: every predecessor of s other than (from) is dominated by s
